@@ -287,6 +287,70 @@ def check(ctx):
 
     check_rate_table(ctx, P)
     check_ongoing_tx(ctx, P)
+    check_offline_reset(ctx, P)
+    check_pending_compare(ctx, P)
+
+
+def check_offline_reset(ctx, P):
+    """g.reset: going offline forgets what the station knew about bus activity.  A station that comes back online with a stale
+    `last_bus_activity` sees its token-lost time-out (and the sync pause, measured from the same instant) already expired in its
+    first poll and claims the token without having observed any silence."""
+    from analysis.modset import ModSets
+    f = ctx.need_fn(CR, ST + "::set_state")
+    if f is None:
+        return
+    marks = {}
+    for b, i, s in stmts(f):
+        if "a" in s and mk_place(s["a"]) == (1, (("deref",),)):
+            marks[(b, i)] = "whole"
+    for b, c in call_sites(f):
+        if mk_place(c["dest"]) == (1, (("deref",),)):
+            marks[(b, None)] = "whole"
+    g = GuardAnalysis(f, P, mem_kill=True, modsets=ModSets(P), marks=marks)
+    bad = []
+    n = 0
+    for rb in f.return_blocks:
+        for fs in g.at(rb):
+            off = [vs for k, vs in fs.items() if k[0] == "discr" and show(k[1]) in ("state", "self.connectivity_state") and vs == ("in", frozenset(["Offline"]))]
+            if not off:
+                continue
+            n += 1
+            if 0 not in g.count_of(fs, "whole"):
+                continue  # the station was re-created
+            lba = [vs for k, vs in fs.items() if k[0] == "discr" and path_str(strip_refs(k[1])) == "self.last_bus_activity"]
+            pb = [vs for k, vs in fs.items() if path_str(strip_refs(k)) == "self.pending_bytes"]
+            if not (lba and lba[0] == ("in", frozenset(["None"])) and pb and pb[0] == ("in", frozenset([0]))):
+                bad.append(M.fmt_facts(fs)[:200])
+    ctx.ob("g.rx", "offline-forgets-bus-activity", n >= 1 and not bad,
+           "set_state(Offline) can return without re-creating the station or clearing last_bus_activity / pending_bytes: the station would rejoin "
+           "with a stale silence timer and claim the token at once: " + "; ".join(bad[:1]), f.loc(0))
+
+
+def check_pending_compare(ctx, P):
+    """b (activity from pending bytes): the comparison `pending > self.pending_bytes` reads the count remembered from the *previous*
+    poll - no store to `pending_bytes` may lie between the PHY query and the comparison (otherwise it compares a value with itself)"""
+    f = ctx.need_fn(CR, ST + "::poll_inner", expand=True, keep=_handlers(P))
+    if f is None:
+        return
+    tb = TermBuilder(f, P)
+    marks = {}
+    for b, i, s in stmts(f):
+        if "a" in s and has_field(s["a"], "pending_bytes", "usize"):
+            marks[(b, i)] = "pbw"
+    g = GuardAnalysis(f, P, marks=marks)
+    n, bad = 0, []
+    for b, i, s in stmts(f):
+        rv = s.get("rv") if "a" in s else None
+        if rv and rv.get("bin") in ("Gt", "Lt", "Ge", "Le"):
+            t = tb.rvalue(rv)
+            sides = [strip_casts(strip_refs(t[2])), strip_casts(strip_refs(t[3]))]
+            if any(path_str(x) == "self.pending_bytes" for x in sides) and any(x[0] == "call" and "poll_pending_received_bytes" in x[1] for x in sides):
+                n += 1
+                for fs in g.at(b, i):
+                    if g.count_of(fs, "pbw") != {0}:
+                        bad.append(f.loc(b, i))
+    ctx.ob("b.sync-pause", "pending-compare-reads-previous-count", n >= 1 and not bad,
+           "the pending-byte comparison must read the count stored in the previous poll (found %d comparison(s); overwritten before the comparison at %s)" % (n, sorted(set(bad))[:2]), f.loc(0))
 
 
 def check_rate_table(ctx, P):
